@@ -101,8 +101,7 @@ Definition C41_oracle_ok (c : C41_case) : bool :=
   end.
 
 (* classes of recorded defects: 1 bounds dropped, (2 retired: fixed by 7270bfe), 3 array
-   dimensions after the first dropped, 4 split
-   #[dust_dds] attributes of which the derive reads the first.  A failing case belongs to a
+   dimensions after the first dropped, (4 retired: fixed by 99bf327).  A failing case belongs to a
    class only if the structure is preserved once everything the classes PRESENT in its
    declaration can lose is forgotten. *)
 Definition C41_known (c : C41_case) : N :=
@@ -111,9 +110,8 @@ Definition C41_known (c : C41_case) : N :=
       let defs := preprocess l in
       let k1 := known_bounds defs in
       let k3 := known_multi_dim defs in
-      let k4 := known_split defs in
-      if supported defs && structure_preserved_upto k1 k3 k4 defs items then
-        if k1 then 1%N else if k3 then 3%N else if k4 then 4%N else 0%N
+      if supported defs && structure_preserved_upto k1 k3 false defs items then
+        if k1 then 1%N else if k3 then 3%N else 0%N
       else 0%N
   | _, _ => 0%N
   end.
@@ -124,8 +122,8 @@ Definition C41_known (c : C41_case) : N :=
    tree, the generated items and the printed descriptions. *)
 Record C41d_case : Type := mkC41d { d_in : list ppitem; d_items : list ritem; d_obs : list obs_struct }.
 
-(* the reading of the derive macro assumed by [shape_of_items] ([view]: first #[dust_dds]
-   attribute only) predicts the real descriptions *)
+(* the reading of the derive macro assumed by [shape_of_items] ([view]: the arguments of all
+   #[dust_dds] attributes, a later one overwriting) predicts the real descriptions *)
 Definition C41d_model_ok (c : C41d_case) : bool :=
   list_agree ps_agrees (flat_map (derive_structs []) (d_items c)) (d_obs c).
 
@@ -134,10 +132,5 @@ Definition C41d_model_ok (c : C41d_case) : bool :=
 Definition C41d_oracle_ok (c : C41d_case) : bool :=
   descriptions_agree false false (preprocess (d_in c)) (d_obs c).
 
-Definition C41d_known (c : C41d_case) : N :=
-  let defs := preprocess (d_in c) in
-  let k4 := known_split defs in
-  let k5 := known_id_nonmutable defs in
-  if descriptions_agree k4 k5 defs (d_obs c) then
-    if k4 then 4%N else if k5 then 5%N else 0%N
-  else 0%N.
+(* no class is left on this tie (2: 7270bfe, 4: 99bf327, 5: 7ee9e78 were fixed in /repo) *)
+Definition C41d_known (c : C41d_case) : N := 0%N.
